@@ -17,6 +17,10 @@ use std::collections::{BTreeMap, BTreeSet};
 pub struct Cfg {
     pub bits: u8,
     pub init: String,
+    /// FDTPublishMode::ObjectsBeingTransferred (an FDT instance per transfer start: many more FDT handles of TOI 0 come
+    /// and go while object TOIs are allocated)
+    #[serde(default)]
+    pub obt: bool,
 }
 
 #[derive(Serialize, Deserialize, Clone, Debug, PartialEq)]
@@ -83,6 +87,7 @@ impl Sys15 {
         let mut s = SessSpec::basic(OtiSpec::new(Scheme::NoCode, 1424, 64, 0, true));
         s.toi_bits = cfg.bits;
         s.toi_init = Some(cfg.init.clone());
+        s.full_fdt = !cfg.obt;
         Sys15 { cfg: cfg.clone(), sender: std::mem::ManuallyDrop::new(s.sender().unwrap()), handles: vec![], objects: BTreeMap::new(), next_salt: 1, viol: vec![], ever_released: BTreeSet::new(), wrapped: false, reused: false, wire_checked: 0, now_ms: 0, refusals: 0 }
     }
     fn live(&self) -> BTreeSet<u128> {
@@ -493,13 +498,17 @@ pub fn configs() -> Vec<Cfg> {
         let max = bits_mask(bits);
         let inits: Vec<u128> = vec![0, 1, max - 1, max, max.wrapping_add(1), (1u128 << 112) + 5, u128::MAX];
         for i in inits {
-            v.push(Cfg { bits, init: i.to_string() });
+            v.push(Cfg { bits, init: i.to_string(), obt: false });
         }
     }
     // the widest setting crossing every boundary of the LCT field-size classes (16, 32, ... 96 bits): the
     // allocated value stays the same, its encoding on the wire changes class
     for k in [16u32, 32, 48, 64, 80, 96] {
-        v.push(Cfg { bits: 112, init: ((1u128 << k) - 2).to_string() });
+        v.push(Cfg { bits: 112, init: ((1u128 << k) - 2).to_string(), obt: false });
+    }
+    // per-transfer FDT instances
+    for (bits, init) in [(16u8, 0xFFFEu128), (16, 1), (112, 1), (48, (1u128 << 48) - 2)] {
+        v.push(Cfg { bits, init: init.to_string(), obt: true });
     }
     v
 }
